@@ -35,6 +35,7 @@ Definition path := list str.
 Definition path_eqb : path -> path -> bool := strs_eqb.
 Definition dir (p : path) : path := removelast p.          (* filepath.Dir *)
 Definition k8s_link : str := [46; 46; 100; 105; 114].      (* "..dir": k8sIntermediateSymlinkDir *)
+Definition k8s_data : str := [46; 46; 100; 97; 116; 97].   (* "..data": k8sDataSymlinkDir *)
 
 Definition content := N.
 Definition value := N.
@@ -47,8 +48,14 @@ Inductive read_result := NotExist | Content (c : content) | IOErr.
 Record fs := mkFs {
   fs_read : read_result;          (* result of opening and reading the path *)
   fs_resolved : option path;      (* filepath.EvalSymlinks(cleanedPath); None = error *)
+  fs_linkres : option path;       (* the not-exist branch's view of a (dangling) symlink:
+                                     EvalSymlinks(Dir(Readlink(cleanedPath))) + Base; None = the
+                                     path is no symlink or its target's directory is missing *)
   fs_addfile_ok : bool;           (* would watcher.Add(cleanedPath) succeed *)
-  fs_adddir_ok : bool             (* would watcher.Add(dir of resolved path) succeed *)
+  fs_adddir_ok : bool;            (* would watcher.Add(dir of resolved path) succeed *)
+  fs_where : list path            (* ghost, about the change that led to this state: the
+                                     directories in which it shows as inotify activity that
+                                     yields an event passing the loop's filter *)
 }.
 
 (* watch sets: fsnotify's path-indexed watch list *)
@@ -164,7 +171,8 @@ Variable cfg : path.                           (* cleanedPath *)
 (* the event-name filter of watchLoop *)
 Definition passes (st : lstate) (name : path) : bool :=
   path_eqb name (st_resolved st) || path_eqb name cfg || path_eqb name (dir cfg)
-  || path_eqb name (dir cfg ++ [k8s_link]) || path_eqb name (dir (st_resolved st)).
+  || path_eqb name (dir cfg ++ [k8s_link]) || path_eqb name (dir cfg ++ [k8s_data])
+  || path_eqb name (dir (st_resolved st)).
 
 (* first half of a pass: Source.Value (+ the report, see the header) *)
 Definition read_phase (f : fs) (st : lstate) : lstate :=
@@ -173,27 +181,35 @@ Definition read_phase (f : fs) (st : lstate) : lstate :=
        (Some (match vr with VNotExist => false | _ => true end)) (st_recheck st)
        (st_exists st) (st_dropped st).
 
-(* second half: the not-exist branch, or EvalSymlinks + re-adding the file
-   watch + updateDirWatches; a token is put into the recheck channel whenever a
-   watch may have been added *)
+(* second half: the not-exist branch (remove the file watch; follow a dangling
+   symlink to the directory its target names), or EvalSymlinks + re-adding the
+   file watch + updateDirWatches; a token is put into the recheck channel
+   whenever a watch may have been added, and when the file vanished between the
+   read and EvalSymlinks *)
 Definition cont_phase (f : fs) (st : lstate) : lstate :=
   match st_pending st with
   | None => st
   | Some false =>
-      (* remove the file watch (errors only logged), resume the loop *)
-      mkSt (st_csum st) false (st_resolved st)
-           (if st_watching st then wremove cfg (st_watches st) else st_watches st)
-           (st_reports st) true None (st_recheck st) false false
+      let w0 := if st_watching st then wremove cfg (st_watches st) else st_watches st in
+      match fs_linkres f with
+      | None => mkSt (st_csum st) false (st_resolved st) w0 (st_reports st) true None
+                     (st_recheck st) false false
+      | Some r =>
+          let old := dir (st_resolved st) in
+          mkSt (st_csum st) false r (udw cfg (fs_adddir_ok f) old (dir r) w0) (st_reports st) true None
+               (st_recheck st || negb (path_eqb old (dir r))) false false
+      end
   | Some true =>
       let old := dir (st_resolved st) in
       let res := match fs_resolved f with Some r => r | None => st_resolved st end in
+      let vanished := match fs_resolved f, fs_read f with None, NotExist => true | _, _ => false end in
       let '(watching, w1, dropped, added) :=
         if st_watching st then (true, st_watches st, st_dropped st, false)
         else if fs_addfile_ok f then (true, wadd cfg (st_watches st), false, true)
         else (false, st_watches st, false, false) in
       let w2 := udw cfg (fs_adddir_ok f) old (dir res) w1 in
       mkSt (st_csum st) watching res w2 (st_reports st) true None
-           (st_recheck st || added || negb (path_eqb old (dir res))) true dropped
+           (st_recheck st || added || negb (path_eqb old (dir res)) || vanished) true dropped
   end.
 
 (* one whole pass of the loop body after the select *)
@@ -268,12 +284,13 @@ Definition init_watches (cfg r0 : path) : list path :=
 Definition init_state (cfg : path) (c0 : content) (v0 : value) (r0 : path) : lstate :=
   mkSt (Some (hmac c0)) true r0 (init_watches cfg r0) [RValue c0 v0] true None true true false.
 
-Definition init_fs (c0 : content) (r0 : path) : fs := mkFs (Content c0) (Some r0) true true.
+Definition init_fs (cfg : path) (c0 : content) (r0 : path) : fs :=
+  mkFs (Content c0) (Some r0) (if path_eqb cfg r0 then None else Some r0) true true [].
 
 (* the pair (file system, loop state) right after Watch returned, and the loop
    state after a trace from there *)
 Definition start (cfg : path) (c0 : content) (v0 : value) (r0 : path) : fs * lstate :=
-  (init_fs c0 r0, init_state cfg c0 v0 r0).
+  (init_fs cfg c0 r0, init_state cfg c0 v0 r0).
 Definition after (udw : path -> bool -> path -> path -> list path -> list path)
            (cfg : path) (c0 : content) (v0 : value) (r0 : path) (t : list item) : lstate :=
   snd (run udw cfg t (start cfg c0 v0 r0)).
@@ -304,27 +321,30 @@ Definition winv (cfg : path) (st : lstate) : bool :=
    && implb (negb (st_watching st)) (negb (mem cfg (st_watches st)))).
 
 (* a well-formed file-system observation: the config path is not itself the
-   directory of its target *)
+   directory of its (possible) target *)
 Definition fs_ok (cfg : path) (f : fs) : bool :=
-  match fs_resolved f with Some r => negb (path_eqb (dir r) cfg) | None => true end.
+  match fs_resolved f with Some r => negb (path_eqb (dir r) cfg) | None => true end
+  && match fs_linkres f with Some r => negb (path_eqb (dir r) cfg) | None => true end.
 
 Definition adds_ok (f : fs) : bool := fs_addfile_ok f && fs_adddir_ok f.
+Definition linkadd_ok (f : fs) : bool :=
+  match fs_linkres f with Some _ => fs_adddir_ok f | None => true end.
 
-(* environment side conditions: watcher.Add succeeds during a pass in which the
-   file was found to exist; the kernel never drops the watch of the config
-   directory nor of the directory currently believed to hold the target (those
-   directories are not deleted or moved) *)
+(* environment side conditions: watcher.Add succeeds on what a pass wants to
+   add; the kernel never drops the watch of the config directory nor of the
+   directory currently believed to hold the target (those directories are not
+   deleted or moved) *)
 Fixpoint trace_ok (udw : path -> bool -> path -> path -> list path -> list path)
          (cfg : path) (t : list item) (f : fs) (st : lstate) : bool :=
   match t with
   | [] => true
   | Fs f' :: t' => fs_ok cfg f' && trace_ok udw cfg t' f' st
   | In i :: t' =>
-      match fs_read f with NotExist => true | _ => adds_ok f end
+      match fs_read f with NotExist => linkadd_ok f | _ => adds_ok f end
       && trace_ok udw cfg t' f (step udw cfg f st i)
   | InRead i :: t' => trace_ok udw cfg t' f (step_read cfg f st i)
   | Cont :: t' =>
-      match st_pending st with Some true => adds_ok f | _ => true end
+      match st_pending st with Some true => adds_ok f | Some false => linkadd_ok f | None => true end
       && trace_ok udw cfg t' f (cont udw cfg f st)
   | KernelDrop p :: t' =>
       negb (path_eqb p (dir cfg)) && negb (path_eqb p (dir (st_resolved st)))
@@ -360,6 +380,99 @@ Fixpoint e_notify (udw : path -> bool -> path -> path -> list path -> list path)
   | Cont :: t' => e_notify udw cfg t' f (cont udw cfg f st)
   | KernelDrop p :: t' => e_notify udw cfg t' f (drop cfg p st)
   end.
+
+(* ---- the environment of no_lost_update: notification by coverage ---- *)
+
+(* where the file is, or would (re)appear *)
+Definition loc (f : fs) : option path :=
+  match fs_resolved f with Some r => Some r | None => fs_linkres f end.
+
+Definition opt_path_eqb (a b : option path) : bool :=
+  match a, b with
+  | Some x, Some y => path_eqb x y
+  | None, None => true
+  | _, _ => false
+  end.
+
+(* the directory of the file's (possible) location is not watched *)
+Definition uncov (f : fs) (st : lstate) : bool :=
+  match loc f with Some r => negb (mem (dir r) (st_watches st)) | None => false end.
+
+(* inotify can report the change that led to f': one of the directories in
+   which it shows is watched at the moment it happens *)
+Definition covered (w : list path) (f' : fs) : bool := existsb (fun d => mem d w) (fs_where f').
+
+(* shape of a file-system state: readable <-> EvalSymlinks succeeds; the two
+   resolutions agree when both exist; a config path that is not a symlink
+   resolves inside its own directory (the directory part of the config path is
+   symlink-free) *)
+Definition fs_shape (cfg : path) (f : fs) : bool :=
+  match fs_read f, fs_resolved f with
+  | NotExist, None => true
+  | NotExist, Some _ => false
+  | _, None => false
+  | _, Some r => match fs_linkres f with
+                 | Some r' => path_eqb r r'
+                 | None => path_eqb (dir r) (dir cfg)
+                 end
+  end.
+
+(* a well-formed change f -> f': it shows in the config's own directory or in
+   the directory of the file's location before the change; and whenever the
+   location itself changes (new symlink, swapped intermediate link, removed
+   entry) the config's own directory is involved *)
+Definition change_ok (cfg : path) (f f' : fs) : bool :=
+  fs_shape cfg f'
+  && (mem (dir cfg) (fs_where f')
+      || match loc f with Some r => mem (dir r) (fs_where f') | None => false end)
+  && (opt_path_eqb (loc f) (loc f') || mem (dir cfg) (fs_where f')).
+
+Fixpoint env_ok (udw : path -> bool -> path -> path -> list path -> list path)
+         (cfg : path) (t : list item) (f : fs) (st : lstate) : bool :=
+  match t with
+  | [] => true
+  | Fs f' :: t' => change_ok cfg f f' && env_ok udw cfg t' f' st
+  | In i :: t' => env_ok udw cfg t' f (step udw cfg f st i)
+  | InRead i :: t' => env_ok udw cfg t' f (step_read cfg f st i)
+  | Cont :: t' => env_ok udw cfg t' f (cont udw cfg f st)
+  | KernelDrop p :: t' =>
+      (* the directory that holds (or will hold) the file is not deleted or moved *)
+      match loc f with Some r => negb (path_eqb p (dir r)) | None => true end
+      && env_ok udw cfg t' f (drop cfg p st)
+  end.
+
+(* E-notify by coverage: a change that a watch in place AT THAT MOMENT can see
+   is followed by an input that makes the loop re-read *)
+Fixpoint e_covered (udw : path -> bool -> path -> path -> list path -> list path)
+         (cfg : path) (t : list item) (f : fs) (st : lstate) : bool :=
+  match t with
+  | [] => true
+  | Fs f' :: t' => implb (covered (st_watches st) f') (notified udw cfg t' f' st)
+                   && e_covered udw cfg t' f' st
+  | In i :: t' => e_covered udw cfg t' f (step udw cfg f st i)
+  | InRead i :: t' => e_covered udw cfg t' f (step_read cfg f st i)
+  | Cont :: t' => e_covered udw cfg t' f (cont udw cfg f st)
+  | KernelDrop p :: t' => e_covered udw cfg t' f (drop cfg p st)
+  end.
+
+(* ghost: the file system changed since the last read began *)
+Fixpoint stale_run (udw : path -> bool -> path -> path -> list path -> list path)
+         (cfg : path) (t : list item) (f : fs) (st : lstate) (s : bool) : bool :=
+  match t with
+  | [] => s
+  | Fs f' :: t' => stale_run udw cfg t' f' st true
+  | In i :: t' => stale_run udw cfg t' f (step udw cfg f st i) (s && negb (receives cfg st i))
+  | InRead i :: t' => stale_run udw cfg t' f (step_read cfg f st i) (s && negb (receives cfg st i))
+  | Cont :: t' => stale_run udw cfg t' f (cont udw cfg f st) s
+  | KernelDrop p :: t' => stale_run udw cfg t' f (drop cfg p st) s
+  end.
+
+(* the loop is idle: blocked in its select with no token waiting *)
+Definition idle (st : lstate) : bool := at_select st && negb (st_recheck st).
+
+(* the recheck token is never received: the loop as it was before the repair *)
+Definition no_token (it : item) : bool :=
+  match it with In IRecheck | InRead IRecheck => false | _ => true end.
 
 Definition is_fs (it : item) : bool := match it with Fs _ => true | _ => false end.
 Definition is_stop (it : item) : bool :=
